@@ -339,8 +339,28 @@ def true_max(p, n):
     return c02.true_max(p, n)
 
 
+def any_text_after_child(a, msg):
+    """the failing document (quoted in the message) has a child that is declared ANY and carries character data
+    after a child element of its own"""
+    import re
+
+    from lxml import etree
+
+    kinds = a.get("kinds") or {}
+    m = re.search(r"document (<r.*?</r>|<r[^>]*/>)", msg, re.S)
+    if not m or "other content" not in msg:
+        return False
+    try:
+        root = etree.fromstring(m.group(1).encode())
+    except etree.XMLSyntaxError:
+        return False
+    return any(kinds.get(ch.tag) == "any" and any((g.tail or "").strip() for g in ch) for ch in root)
+
+
 def covered_docs(a, msg):
     c = a["content"]
+    if any_text_after_child(a, msg):
+        return "C16-any-drops-text"
     dup = len(set(G.dtd_names(c))) != len(G.dtd_names(c))
     if not dup:
         return None
@@ -516,7 +536,34 @@ def finding_dup():
     return (msg is not None and "rejected" in msg, msg or "the document now parses")
 
 
+def finding_any_text():
+    """<!ELEMENT r (b)> <!ELEMENT b ANY>: <r><b>tx<z>q</z>ty<d>dd</d></b></r> loses `ty`"""
+    import io
+
+    from lxml import etree
+    from xsdata.formats.dataclass.context import XmlContext
+    from xsdata.formats.dataclass.parsers import XmlParser
+    from xsdata.formats.dataclass.serializers import XmlSerializer
+
+    dtd_text = "<!ELEMENT r (b)>\n<!ELEMENT b ANY>\n<!ELEMENT z (#PCDATA)>\n<!ELEMENT d (#PCDATA)>\n"
+    doc = "<r><b>tx<z>q</z>ty<d>dd</d></b></r>"
+    assert etree.DTD(io.StringIO(dtd_text)).validate(etree.fromstring(doc))
+    g = CG.run_pipeline({"s.dtd": dtd_text})
+    try:
+        if g.error is not None:
+            return (False, f"generation failed: {g.error}")
+        ctx = XmlContext()
+        obj = XmlParser(context=ctx).from_string(doc, g.classes()["R"])
+        out = XmlSerializer(context=ctx).render(obj)
+        back = etree.fromstring(out.encode())
+        lost = "ty" not in "".join(back.itertext())
+        return (lost, f"{doc} comes back as {out.split('?>')[-1].strip()}")
+    finally:
+        g.close()
+
+
 FINDINGS = {
+    "C16-any-drops-text": finding_any_text,
     "C16-duplicate-name-sites": finding_dup,
 }
 TRUSTED = [
@@ -530,7 +577,7 @@ LEVEL_TEXT = (
     "the occurrence indicators sit, a non-list field is never repeated and a required field is always present in a DTD-valid document, and a list "
     "field is needed; the mapper's fields are literally the XSD mapper's sites of the same particle; counterexample theorem for repeated names. "
     "Attribute declarations: whatever a DTD-valid element carries for #REQUIRED / #IMPLIED / #FIXED / defaulted attributes is accepted and read as the value the DTD prescribes "
-    "(dtd_attribute_faithful). Element declarations: ANY and mixed content give one wildcard list, EMPTY no fields, (#PCDATA) a text field. Tied to /repo by "
+    "(dtd_attribute_faithful). Element declarations: mixed content gives one wildcard list, EMPTY no fields, (#PCDATA) a text field; ANY gives a single wildcard field that drops character data after a child (counterexample theorem dtd_any_drops_text, finding C16-any-drops-text). Tied to /repo by "
     "correspondence of DtdMapper sites, the handlers and the generated field shapes of the whole pipeline; documents and attribute defaults end to end by the oracle."
 )
 LEVEL_NOTE = "Trusted: Lean kernel, particle language spec, libxml2 DTD reader/validator, stand-in renderer, sampling correspondence."
